@@ -145,9 +145,10 @@ Proof.
   apply p_remove_dead. assumption.
 Qed.
 
-Lemma cleanup_loop_dead w : dead w -> forall files index ll total, exists r, cleanup_loop w files index ll total = (r, w).
+Lemma cleanup_loop_dead w : dead w -> forall files index ll total cur, exists r, cleanup_loop w files index ll total cur = (r, w).
 Proof.
-  intros H. induction files as [|n r IH]; intros index ll total; cbn [cleanup_loop]; [eauto|].
+  intros H. induction files as [|n r IH]; intros index ll total cur; cbn [cleanup_loop]; [eauto|].
+  destruct (match cur with Some p => beq p n | None => false end); [apply IH|].
   destruct (Nat.leb total index).
   - destruct (p_remove_dead w n H) as [ok E]. rewrite E. destruct ok; [apply IH | eauto].
   - destruct (Nat.leb ll index); [|apply IH].
@@ -167,7 +168,7 @@ Lemma cleanup_impl_dead c w k flt d : dead w -> exists r, cleanup_impl c w k flt
 Proof.
   intros H. unfold cleanup_impl.
   assert (X : forall ll cl, exists r,
-    (let ll := if d && Nat.eqb ll 0 then 1 else ll in
+    (let ll := if match d with Some _ => true | None => false end && Nat.eqb ll 0 then 1 else ll in
      let '(fl, w1) := tick w in
      if fl then (Err, w1) else
      match list_log_gz (woff w1) (c_spec c) (fixed_of c w1) (wfs w1) flt with
@@ -175,14 +176,14 @@ Proof.
      | Some files =>
        let '(ok0, w1', files') := remove_redundant w1 (redundant_gz files) files in
        if negb ok0 then (Err, w1') else
-       let '(ok, w2) := cleanup_loop w1' files' 0 ll (ll + cl) in
+       let '(ok, w2) := cleanup_loop w1' files' 0 ll (ll + cl) d in
        ((if ok then Ok tt else Err), w2)
      end) = (r, w)).
   { intros ll cl. cbn zeta. rewrite tick_dead by assumption.
     destruct (list_log_gz (woff w) (c_spec c) (fixed_of c w) (wfs w) flt) as [files|]; [|eauto].
     destruct (remove_redundant_dead w H (redundant_gz files) files) as [ok0 [fl E0]]. rewrite E0.
     destruct ok0; cbn [negb]; [|eauto].
-    destruct (cleanup_loop_dead w H fl 0 (if d && Nat.eqb ll 0 then 1 else ll) ((if d && Nat.eqb ll 0 then 1 else ll) + cl)) as [ok E1].
+    match goal with |- context [cleanup_loop w fl 0 ?a ?b d] => destruct (cleanup_loop_dead w H fl 0 a b d) as [ok E1] end.
     rewrite E1. eauto. }
   destruct k as [|a|b|a b]; [eauto | apply X | apply X | apply X].
 Qed.
@@ -288,8 +289,8 @@ Proof.
     destruct r2 as [[wr path]| |]; cbn [bind]; [|eexists _, _; split; [reflexivity | apply frozen_refl; assumption]..].
     destruct (roll_new_dead w crit (c_append c) path H) as [r3 E3]. rewrite E3.
     destruct r3 as [roll| |]; cbn [bind]; [|eexists _, _; split; [reflexivity | apply frozen_refl; assumption]..].
-    assert (X : exists r4, match k with KNever => (Ok tt, w) | _ => cleanup_impl c w k (ns_filter ns) (naming_writes_direct nam) end = (r4, w)).
-    { destruct (cleanup_impl_dead c w k (ns_filter ns) (naming_writes_direct nam) H) as [r4 E4]. destruct k; eauto. }
+    assert (X : exists r4, match k with KNever => (Ok tt, w) | _ => cleanup_impl c w k (ns_filter ns) (if naming_writes_direct nam then Some path else None) end = (r4, w)).
+    { destruct (cleanup_impl_dead c w k (ns_filter ns) (if naming_writes_direct nam then Some path else None) H) as [r4 E4]. destruct k; eauto. }
     destruct X as [r4 E4]. rewrite E4.
     destruct r4; cbn [bind]; [|eexists _, _; split; [reflexivity | apply frozen_refl; assumption]..].
     eexists _, _. split; [reflexivity|].
@@ -314,7 +315,7 @@ Proof.
         let w2b := if okf then w2a else report EFlush w2a in
         let w3 := w_drop w2b wra in
         let roll' := reset_size_and_date w3 (rs_roll rs) path' in
-        let '(rc, w4) := cleanup_or_queue c w3 (rs_bg rs) (rs_cleanup rs) (ns_filter ns1) (ns_writes_direct ns1) in
+        let '(rc, w4) := cleanup_or_queue c w3 (rs_bg rs) (rs_cleanup rs) (ns_filter ns1) (if ns_writes_direct ns1 then Some path' else None) in
         let st' := Active (Some {| rs_naming := ns1; rs_roll := roll'; rs_cleanup := rs_cleanup rs; rs_bg := rs_bg rs |}) wr' path' in
         (match rc with Ok _ => Ok tt | Err => Err | Panic => Panic end, w4, st')
       | (Err, w2) => (Err, w2, Active (Some {| rs_naming := ns1; rs_roll := rs_roll rs; rs_cleanup := rs_cleanup rs; rs_bg := rs_bg rs |}) wr path)
@@ -328,7 +329,7 @@ Proof.
     destruct (open_log_file_dead c w (Some infix) H) as [r2 E2]. rewrite E2.
     destruct r2 as [[wr' path']| |]; try (eexists _, _, _; split; [reflexivity | apply frozen_refl; assumption]).
     destruct (w_flush_dead w wr H) as [wra Ef]. rewrite Ef. cbv beta iota zeta. rewrite w_drop_dead by assumption.
-    destruct (cleanup_or_queue_frozen c w (rs_bg rs) (rs_cleanup rs) (ns_filter ns1) (ns_writes_direct ns1) H) as [rc [w4 [Ec F4]]].
+    destruct (cleanup_or_queue_frozen c w (rs_bg rs) (rs_cleanup rs) (ns_filter ns1) (if ns_writes_direct ns1 then Some path' else None) H) as [rc [w4 [Ec F4]]].
     rewrite Ec. eexists _, _, _. split; [reflexivity | exact F4]. }
   destruct (rs_naming rs) as [ts [cur|] fmt|idx|idx].
   - destruct (creation_ts_dead c w cur true (Some ts) fmt H) as [r E]. rewrite E.
